@@ -61,6 +61,18 @@ chk("C08",
     "stateless model checking of the real streaming parser under a controlled environment: exhaustive enumeration of read schedules and reader fault points (deviation-bounded), differential oracle against in-memory parse",
     "DESIGN.md section 6, C08")
 
+chk("C16",
+    "Every bounded input is parsed; every root block outside the stated exception is re-parsed alone from its Source through NewBlockParser+Rewrite with the document's reference map, and must give exactly one block with an identical dump (kinds, accessors, spans, leaf text) that consumes all of Source.",
+    COMMON_NOTE + " One known finding (setext heading continuing a paragraph that began with reference definitions) is listed by exact failing inputs in known/C16-setext-after-refdef.cases.",
+    "stateless explicit enumeration of all bounded inputs x every root block; differential oracle document-parse vs stand-alone re-parse on the real code",
+    "DESIGN.md section 6, C16")
+chk("C18",
+    "The real Walk is closed with callbacks whose every answer is a choice of the explorer: Pre nil or not, Post nil or not, six child views (default, virtual root, reversed, first-child-hidden, only-Child, only-ChildCount), the return value of Pre at every call (all prune sets for trees of <= 10 nodes, deviation-bounded above) and an abort at any Post call. "
+    "Each execution's callback trace (event, node, parent, index, parent block) must equal that of a recursive reference traversal replaying the same decisions, and the cursor invariants are checked at every callback.",
+    COMMON_NOTE,
+    "stateless model checking of the real Walk under a controlled environment: exhaustive enumeration of callback policies (prune sets, abort points, nil-ness, child views) over all bounded trees; reference-model trace comparison",
+    "DESIGN.md section 6, C18")
+
 # Reasons for properties not (yet) claimed.
 PENDING = {}
 
